@@ -40,7 +40,11 @@
 //	R6  `append(xs, v)` is `xs ++ [v]`, `append(xs, ys...)` is `xs ++ ys` (`[] ++ ys` is written `ys`),
 //	    `make([]T, 0, c)` is `[]` (with a run-time panic for `c < 0` unless `c` is syntactically a
 //	    length), `make([]field, n)` may only be the destination of `copy(dst, src[lo:hi])` with `n`
-//	    syntactically `hi-lo`, which stores `src[lo:hi]`.  `len(xs)` is `(xs.length : Int)`.
+//	    syntactically `hi-lo`, which stores `src[lo:hi]`, or, with `n` a sum `len(A) + len(B) + …`, of the
+//	    copies `copy(dst, A)`, `copy(dst[len(A):], B)`, … in this order, one per summand (each `len` must
+//	    translate to the same Lean text as it did at the `make`: nothing it reads was assigned in
+//	    between), which store `A ++ B ++ …` (every copy fits and they tile the slice; until the last one
+//	    the slice has no translation).  `len(xs)` is `(xs.length : Int)`.
 //	R7  type tests.  `x.(T)` / `switch x.(type)` test `x.kind` (`Val.kind`): on a stored field the Go
 //	    types Object, List, *atNil, *atString, *atInt, *atBool, *atFloat; on a `getVal()` result the
 //	    types Object, List, string, bool, int, float64.  `v, ok := x.(T)` gives `ok := x.kind == K`,
@@ -57,6 +61,10 @@
 //	R9  loops are recursive helper functions `…LoopGen`:
 //	    - `for i, x := range xs` is structural recursion over the list `xs` (`i : Int` counts from 0);
 //	    - `for i := len(s) - 1; i >= 0; i--` whose body uses `i` only as `s[i]` is recursion over `s.reverse`;
+//	    - `for i := range s` whose body mentions `i`, `s` and a local `l` only as `s[l-i]`, where `l` holds
+//	      `len(s) - 1` (its let-bound Lean value is `(s.length : Int) - 1` for the Lean value of `s` when the loop
+//	      starts), is recursion over `s.reverse` too: `i` runs from 0 to `len(s) - 1`, so `l-i` runs from
+//	      `len(s) - 1` down to 0, always in range, and neither `s` nor `l` can be assigned in the body;
 //	    - any other `for i := e - 1; i >= 0; i--` is recursion on `Nat` from `e.toNat` (`| i + 1 =>` is the
 //	      iteration with loop variable `i`);  `for i := 0; i < n; i++` with `i` unused is `n.toNat` repetitions;
 //	    - a loop body containing `return` (search loop): the `[]` case of the helper is the translation of
@@ -284,6 +292,8 @@ type lbind struct {
 	iface bool
 	// Fields / Vals whose backing array is not that of an existing list: `[]T{}`, `make(…)`, `append(fresh, …)` (R8)
 	fresh bool
+	// a local whose value is let-bound (lean = the name): the Lean text of the value
+	def string
 }
 
 type lcell struct {
@@ -291,6 +301,10 @@ type lcell struct {
 	pending string // "" = the heap is up to date
 	virtual bool   // created by &list{…}, not yet appended to the heap
 	inited  bool   // x.Init(x) seen
+	// pending "<nil>…" (make([]field, n), R6): the Lean text of the summands of n when the slice was made,
+	// and the Lean text of the slices copied into it so far (one per summand, in order)
+	nilParts []string
+	filled   []string
 }
 
 type lenv struct {
@@ -633,9 +647,17 @@ func (x *lctx) recvCell(env *lenv, e ast.Expr) (int, bool) {
 	return 0, false
 }
 
+// the slice made by make([]field, n) has no translation before the copies have filled it (R6)
+func notNil(n ast.Node, c lcell) {
+	if strings.HasPrefix(c.pending, "<nil>") {
+		failAt(n, "the slice made with length %s is used before it is completely filled by copy (R6)", strings.TrimPrefix(c.pending, "<nil>"))
+	}
+}
+
 func (x *lctx) valOf(env *lenv, n ast.Node, c int) string {
 	cell := env.cells[c]
 	if cell.pending != "" {
+		notNil(n, cell)
 		return cell.pending
 	}
 	if cell.virtual {
@@ -1191,6 +1213,7 @@ func (x *lctx) flush(env *lenv, n ast.Node, k lkont) lnode {
 			continue
 		}
 		x.needHeap(n)
+		notNil(n, c)
 		e := env.clone()
 		h1 := x.fresh("h")
 		var val string
@@ -1304,6 +1327,7 @@ func (x *lctx) retLeaf(env *lenv, n ast.Node, v lbind) lnode {
 			if !c.inited {
 				failAt(n, "the new list is returned before Init")
 			}
+			notNil(n, c)
 			// the other cells first
 			e := env.clone()
 			e.cells[v.cell].pending = ""
@@ -1648,6 +1672,7 @@ func (x *lctx) bindLocal(env *lenv, name string, v lbind, declare bool, k lkont)
 	}
 	val := v.lean
 	v.lean = ln
+	v.def = val
 	set(v)
 	return lLet{name: ln, val: val, body: k(env)}
 }
@@ -1801,6 +1826,28 @@ func (x *lctx) execExprStmt(st *ast.ExprStmt, env *lenv, k lkont) lnode {
 				}
 			}
 		}
+		// copy(x.val, A); copy(x.val[len(A):], B); … into a slice made with length len(A)+len(B)+… (R6)
+		if c, lo, ok := x.copyDest(env, call.Args[0]); ok {
+			cell := env.cells[c]
+			var nodes []ast.Expr
+			x.effects(env, call.Args[0], &nodes)
+			x.effects(env, call.Args[1], &nodes)
+			n := len(cell.filled)
+			if len(nodes) == 0 && n < len(cell.nilParts) && x.sumIs(env, lo, cell.nilParts[:n]) {
+				if v := x.expr(env, call.Args[1]); v.typ == "Fields" && "("+paren(v.lean)+".length : Int)" == cell.nilParts[n] {
+					filled := append(append([]string(nil), cell.filled...), v.lean)
+					env.cells[c].filled = filled
+					if len(filled) == len(cell.nilParts) {
+						all := filled[0]
+						for _, f := range filled[1:] {
+							all = paren(all) + " ++ " + paren(f)
+						}
+						env.cells[c].pending, env.cells[c].nilParts, env.cells[c].filled = all, nil, nil
+					}
+					return k(env)
+				}
+			}
+		}
 		failAt(st, "unrecognised copy: %s", src(st))
 	}
 	// a call for its effect
@@ -1809,6 +1856,53 @@ func (x *lctx) execExprStmt(st *ast.ExprStmt, env *lenv, k lkont) lnode {
 	}
 	failAt(st, "unrecognised statement: %s", src(st))
 	return nil
+}
+
+// the summands of a sum
+func summands(e ast.Expr) []ast.Expr {
+	e = unparen(e)
+	if b, ok := e.(*ast.BinaryExpr); ok && b.Op == token.ADD {
+		return append(summands(b.X), summands(b.Y)...)
+	}
+	return []ast.Expr{e}
+}
+
+// the destination of a copy into a slice made by make([]field, n) that is not completely filled yet:
+// `x.val` (lo = nil) or `x.val[lo:]` for a list x just created
+func (x *lctx) copyDest(env *lenv, e ast.Expr) (c int, lo ast.Expr, ok bool) {
+	e = unparen(e)
+	if sl, isSlice := e.(*ast.SliceExpr); isSlice {
+		if sl.Low == nil || sl.High != nil || sl.Slice3 {
+			return 0, nil, false
+		}
+		e, lo = unparen(sl.X), sl.Low
+	}
+	s, isSel := e.(*ast.SelectorExpr)
+	if !isSel || s.Sel.Name != "val" {
+		return 0, nil, false
+	}
+	c, ok = x.recvCell(env, s.X)
+	if !ok || !env.cells[c].virtual || !strings.HasPrefix(env.cells[c].pending, "<nil>") {
+		return 0, nil, false
+	}
+	return c, lo, true
+}
+
+// is the value of lo (nil: 0) the sum of the values with the Lean texts parts, summand by summand?
+func (x *lctx) sumIs(env *lenv, lo ast.Expr, parts []string) bool {
+	if lo == nil {
+		return len(parts) == 0
+	}
+	ss := summands(lo)
+	if len(ss) != len(parts) {
+		return false
+	}
+	for i, s := range ss {
+		if v := x.expr(env, s); v.typ != "Int" || v.lean != parts[i] {
+			return false
+		}
+	}
+	return true
 }
 
 // sort.Ints on a local
@@ -1991,6 +2085,7 @@ func (x *lctx) execAssign(st *ast.AssignStmt, env *lenv, k lkont) lnode {
 				x.needHeap(st)
 				v := x.expr(env, kv.Value)
 				pending := v.lean
+				var nilParts []string
 				switch v.typ {
 				case "Fields":
 					if !v.fresh {
@@ -1999,10 +2094,15 @@ func (x *lctx) execAssign(st *ast.AssignStmt, env *lenv, k lkont) lnode {
 					}
 				case "NilSlice":
 					pending = "<nil>" + v.hi
+					if mk, ok := unparen(kv.Value).(*ast.CallExpr); ok && isIdent(mk.Fun, "make") && len(mk.Args) == 2 {
+						for _, s := range summands(mk.Args[1]) {
+							nilParts = append(nilParts, x.expr(env, s).lean)
+						}
+					}
 				default:
 					failAt(st, "a list cannot hold a %s", v.typ)
 				}
-				env.cells = append(env.cells, lcell{addr: x.fresh("n"), pending: pending, virtual: true})
+				env.cells = append(env.cells, lcell{addr: x.fresh("n"), pending: pending, virtual: true, nilParts: nilParts})
 				env.define(l.Name, lbind{typ: "Fresh", cell: len(env.cells) - 1})
 				return k(env)
 			})
@@ -2560,7 +2660,7 @@ func (x *lctx) genLoop(node ast.Node, body []ast.Stmt, dom loopDom, env *lenv, k
 			return k(env)
 		default:
 			b := env.locals[acc]
-			b.lean = call
+			b.lean, b.def = call, ""
 			env.locals[acc] = b
 			return k(env)
 		}
@@ -2591,6 +2691,10 @@ func (x *lctx) execRange(st *ast.RangeStmt, env *lenv, k lkont) lnode {
 		if elem == "" {
 			failAt(st, "range over a %s", xs.typ)
 		}
+		if elemFor := x.mirrored(env, st, xs); len(elemFor) > 0 {
+			dom := loopDom{listLean: paren(xs.lean) + ".reverse", elemTyp: elem, elemFor: elemFor}
+			return x.genLoop(st, st.Body.List, dom, env, k)
+		}
 		dom := loopDom{listLean: xs.lean, elemTyp: elem}
 		if st.Key != nil {
 			dom.keyGo = st.Key.(*ast.Ident).Name
@@ -2600,6 +2704,61 @@ func (x *lctx) execRange(st *ast.RangeStmt, env *lenv, k lkont) lnode {
 		}
 		return x.genLoop(st, st.Body.List, dom, env, k)
 	})
+}
+
+// `for i := range s` whose body mentions i, s and a local l holding `len(s) - 1` only as `s[l-i]` (R9): the
+// expressions `s[l-i]`, which denote the elements of s from the last one to the first one
+func (x *lctx) mirrored(env *lenv, st *ast.RangeStmt, xs lbind) []ast.Expr {
+	s, ok := unparen(st.X).(*ast.Ident)
+	key, ok2 := st.Key.(*ast.Ident)
+	if !ok || !ok2 || key.Name == "_" || (st.Value != nil && !isIdent(st.Value, "_")) {
+		return nil
+	}
+	switch xs.typ {
+	case "Ints", "GoVals", "Vals":
+	default:
+		return nil
+	}
+	var elemFor []ast.Expr
+	inElem := map[*ast.Ident]bool{}
+	last := ""
+	other := 0 // occurrences of i, s and l outside the expressions s[l-i]
+	ast.Inspect(st.Body, func(n ast.Node) bool {
+		switch n := n.(type) {
+		case *ast.IndexExpr:
+			sub, ok := unparen(n.Index).(*ast.BinaryExpr)
+			if !ok || sub.Op != token.SUB || !isIdent(n.X, s.Name) || !isIdent(sub.Y, key.Name) {
+				break
+			}
+			l, ok := sub.X.(*ast.Ident)
+			if !ok || l.Name == key.Name || l.Name == s.Name || (last != "" && l.Name != last) {
+				break
+			}
+			last = l.Name
+			elemFor = append(elemFor, n)
+			inElem[n.X.(*ast.Ident)], inElem[l], inElem[sub.Y.(*ast.Ident)] = true, true, true
+		case *ast.Ident:
+			if !inElem[n] && (n.Name == key.Name || n.Name == s.Name || (last != "" && n.Name == last)) {
+				other++
+			}
+		}
+		return true
+	})
+	if len(elemFor) == 0 || other != 0 {
+		return nil
+	}
+	// an occurrence of l in front of the first s[l-i] has not been counted
+	n := 0
+	ast.Inspect(st.Body, func(m ast.Node) bool {
+		if id, ok := m.(*ast.Ident); ok && id.Name == last {
+			n++
+		}
+		return true
+	})
+	if b, ok := env.locals[last]; !ok || n != len(elemFor) || b.typ != "Int" || !isAtom(b.lean) || b.def != "("+paren(xs.lean)+".length : Int) - 1" {
+		return nil
+	}
+	return elemFor
 }
 
 func (x *lctx) execFor(st *ast.ForStmt, env *lenv, k lkont) lnode {
